@@ -2,6 +2,7 @@
 # ./check.sh <property id> [quick|thorough]   — decide one property on /repo's working tree
 # ./check.sh replay <replay file>             — re-run a stored counterexample replay
 # ./check.sh selftest                         — must-fail / must-pass corpus
+# ./check.sh lemmas                           — re-check the sum / prefix-set / pow2m1 lemma schemas in Lean
 cd "$(dirname "$0")"
 export GOPROXY=off GOSUMDB=off GOTOOLCHAIN=local GOWORK=off
 if [ ! -x bin/govc ] || [ -n "$(find govc -name '*.go' -newer bin/govc -not -path 'govc/vendor/*' 2>/dev/null | head -1)" ]; then
@@ -10,6 +11,7 @@ fi
 case "$1" in
   replay) exec bin/govc replay "$2" ;;
   selftest) shift; exec python3 selftest/run.py "$@" ;;
+  lemmas) cd lean && exec lean SumLemmas.lean ;;  # the lemma schemas behind the ground instances (Lean 4 + Mathlib, ~2-3 min)
 esac
 tier="${2:-${VERIF_TIER:-quick}}"
 bin/govc check -prop "$1" -tier "$tier"
